@@ -141,6 +141,19 @@ def callee_copies_before_true(ctx, f, copyfns, seen):
         if any(g.dominates(c, rn) for c in copies if c is not None):
             ok_any = True
             continue
+        # `if X: copy(...)` followed by `return X`: a truthy X implies the copy ran
+        if isinstance(v, ast.Name):
+            implied = False
+            for c in copies:
+                if c is None:
+                    continue
+                for b, lab in g.direct_control_deps(c):
+                    t = C.test_expr(b)
+                    if t is not None and norm(t) == v.id and lab == "true" and g.dominates(b, rn) and not C.names_assigned_between(ctx, f, b, rn, v.id):
+                        implied = True
+            if implied:
+                ok_any = True
+                continue
         # delegation: return self.result / return g(...)
         delegated = False
         for n in ast.walk(v):
